@@ -546,16 +546,7 @@ def shrink(case):
         yield dict(case, via='func')
 
 
-def _pred_mp_budget_500(case, what, m):
-    """F16 (repaired by cluster mpB2): BodySizeError raised by FieldStorage.read escapes POST without _raise"""
-    if case.get('kind') != 'budget' or case.get('via') != 'wsgi':
-        return False
-    _, mine = build_multipart(case['parts'])
-    need = sum(h + (0 if f else d) for h, d, f in mine)
-    return need > case['buf']
-
-
-PREDICATES = {'mp_text_over_budget_via_wsgi': _pred_mp_budget_500}
+PREDICATES = {}
 
 MANIFEST = dict(
     text=('Proof: theorems in coq/props/C13.v (Coq, closed under the global context) state for ALL data, limits, '
